@@ -2862,6 +2862,20 @@ impl<'a> Lifter<'a> {
                 }
             }
         }
+        // L9c: `a2.row(i)` / `a2.column(i)`: row / column i of a two-dimensional array
+        if (name == "row" || name == "column") && m.args.len() == 1 {
+            let recv = self.expr(&m.receiver)?;
+            if recv.ty == "RArr2" {
+                let idx = self.expr(&m.args[0])?;
+                if idx.ty == "int" {
+                    return Ok(if name == "row" {
+                        v(format!("RArr {{ len: {0}.m, at: |i__: int| ({0}.at)({1}, i__) }}", recv.text, idx.text), "RArr")
+                    } else {
+                        v(format!("RArr {{ len: {0}.n, at: |i__: int| ({0}.at)(i__, {1}) }}", recv.text, idx.text), "RArr")
+                    });
+                }
+            }
+        }
         // L9b: `a2.index_axis(Axis(0), i)` / `Axis(1)`: row / column i of a two-dimensional array
         if name == "index_axis" && m.args.len() == 2 {
             if let syn::Expr::Call(c) = &m.args[0] {
